@@ -27,6 +27,8 @@ type cnode struct {
 	// payload of a definite string; raw bytes (header included) of major 7 items
 	payload []byte
 	kids    []*cnode // array items, map keys/values alternating, tag content, chunks
+	// position of the item in the parsed input (not updated by setForm/encode)
+	off, end int
 }
 
 var errCborShort = errors.New("cbor: truncated")
@@ -50,7 +52,16 @@ func widthOfAi(ai byte) int {
 }
 
 // parseCbor parses one item at b[pos:], returns the node and the position after it.
-func parseCbor(b []byte, pos int, depth int) (*cnode, int, error) {
+func parseCbor(b []byte, pos int, depth int) (n *cnode, np int, err error) {
+	defer func() {
+		if err == nil && n != nil {
+			n.end = np
+		}
+	}()
+	return parseCbor1(b, pos, depth)
+}
+
+func parseCbor1(b []byte, pos int, depth int) (*cnode, int, error) {
 	if depth > 200 {
 		return nil, 0, errors.New("cbor: too deep")
 	}
@@ -58,7 +69,7 @@ func parseCbor(b []byte, pos int, depth int) (*cnode, int, error) {
 		return nil, 0, errCborShort
 	}
 	ib := b[pos]
-	n := &cnode{major: ib >> 5}
+	n := &cnode{major: ib >> 5, off: pos}
 	ai := ib & 0x1f
 	n.width = widthOfAi(ai)
 	if n.width < 0 {
